@@ -3,6 +3,8 @@ import NodisVerif.Driver.ApiOps
 import NodisVerif.Driver.RespOps
 import NodisVerif.Model.Handler2
 import NodisVerif.Model.Handler3
+import NodisVerif.Model.Handler4
+import NodisVerif.Driver.GeoOps
 import NodisVerif.Driver.FragOps
 import NodisVerif.Driver.ProtoOps
 import NodisVerif.Driver.LinkedListOps
@@ -24,6 +26,7 @@ structure DState where
   sl : Skiplist.SL := Skiplist.makeSkiplist      -- the pointer-level skiplist of the `sl` ops
   slz : Skiplist.PZSet := Skiplist.PZSet.empty   -- the pointer-level sorted set of the `slz` ops
   wr : RespWriter.Writer := RespWriter.new       -- the bare RESP reply writer of the `wr` lines (C16)
+  dead : List String := []                       -- connections closed by QUIT (instance/connection)
 
 def DState.sv (d : DState) : Server := ((d.inst.find? (·.1 == d.cur)).map (·.2)).getD {}
 def DState.putSv (d : DState) (sv : Server) : DState :=
@@ -39,7 +42,7 @@ def annotations (toks : List String) : List String × Int × Option (List Bytes)
     (((t.drop 7).toString.splitOn ",").filter (· ≠ "")).filterMap Wire.parseArg
   (plain, now, choice)
 
-def tables : List (String → List Bytes → Option HRes) := [Handler.table1, Handler2.table2, Handler3.table3]
+def tables : List (String → List Bytes → Option HRes) := [Handler.table1, Handler2.table2, Handler3.table3, Handler4.table4]
 
 def step (d : DState) (line : String) : DState × String :=
   let toks := Wire.splitWs line.trimAscii.toString
@@ -57,6 +60,7 @@ def step (d : DState) (line : String) : DState × String :=
     let (w', out) := Driver.wrOp w rest
     ({ d with wr := w' }, out)
   | "fmtfloat" :: _ | "parsefloat" :: _ => (d, Driver.floatOp toks)
+  | "geo" :: rest => (d, Driver.geoOp rest)
   | "pev" :: rest => let (p, out) := Driver.protoOp d.proto rest; ({ d with proto := p }, out)
   | "bev" :: rest => let (b, out) := Driver.blockOp d.block rest; ({ d with block := b }, out)
   | "gev" :: rest => let (g, out) := Driver.gateOp d.gate rest; ({ d with gate := g }, out)
@@ -99,7 +103,7 @@ def step (d : DState) (line : String) : DState × String :=
        | some r =>
          let rsv := Server.applySignals { rsv with store := Store.syncShared { r with held := [] } }
          ({ d with inst := (dst, rsv) :: d.inst.filter (·.1 != dst) }, s!"ok n={recs.length}"))
-    | ["dump"] => (d, Driver.dumpState s)
+    | ["dump"] => (d, Driver.dumpState s none (some now))
     | ["ldump"] => (d, Driver.dumpState s (some now))
     | "api" :: method :: rest =>
       (match Driver.callApi { s with signalled := [], held := [], hung := false } now method (Driver.groups rest) choice with
@@ -123,11 +127,16 @@ def step (d : DState) (line : String) : DState × String :=
       let (sv, out) := Driver.scanAll tables d.sv id now template 5001 [48] 0 []
       (d.putSv { sv with store := Store.syncShared sv.store }, out)
     | "resp" :: id :: rest =>
+      if d.dead.contains (d.cur ++ "/" ++ id) then (d, "!DEAD") else
       (match rest.mapM Wire.parseArg with
        | none => (d, "bad-op")
        | some argv =>
          let (sv, out) := Driver.respStep tables d.sv id now argv choice
-         (d.putSv { sv with store := Store.syncShared sv.store }, out))
+         let d := d.putSv { sv with store := Store.syncShared sv.store }
+         -- QUIT run by execCommand: `+OK` goes into the connection's buffer, then the socket is closed; the
+         -- flush after the handler fails, so the client reads end-of-stream and nothing else (FINDINGS.md)
+         let isQuit := match argv with | nameB :: _ => Resp.upper nameB == Bytes.ofString "QUIT" | [] => false
+         if isQuit && out == "+4f4b" then ({ d with dead := (d.cur ++ "/" ++ id) :: d.dead }, " !CLOSED") else (d, out))
     | _ => (d, "bad-op")
 
 partial def loop (h : IO.FS.Stream) (out : IO.FS.Stream) (st : DState) : IO Unit := do
